@@ -326,7 +326,7 @@ func fieldMutate(rt *rapid.T, in []byte, label string) ([]byte, string) {
 		return in, "none"
 	}
 	resize := func(b []byte) []byte {
-		l := gen.Pick(rt, []int{0, 1, 31, 33, 39, 40, 41, 64}, label+"len")
+		l := gen.Pick(rt, []int{0, 1, 31, 33, 39, 40, 41, 64, 65, 96, 97, 128, 129, 200, 1000}, label+"len")
 		out := make([]byte, l)
 		copy(out, b)
 		return out
